@@ -445,6 +445,9 @@ func main() {
 	rep.Facts["optionTemplateClasses"] = classes
 
 	writeLean(classes)
+	if *out != "" {
+		extractCli(filepath.Dir(*out))
+	}
 	if *reportF != "" {
 		sort.Strings(rep.Unrecognised)
 		b, _ := json.MarshalIndent(rep, "", " ")
